@@ -124,6 +124,45 @@ def _evidence(rep):
     return rep.f()
 
 
+def check_step_enumeration(chk, r, n_targets):
+    """exact enumeration for one SMC step: every population of N points of a K-point space, drawn i.i.d. from the tempered
+    target p_b, through the real `SMCSamples.log_evidence_ratio`:  sum_pop p_b(pop) exp(ratio) = Z_b' / Z_b  (theorem
+    `C01.smc_step_ratio`); the model (`ratio` op) computes the same sum."""
+    from aspire.samples import SMCSamples
+
+    drv = core.LeanDriver()
+    for t in range(n_targets):
+        K, N = int(r.choice([2, 3])), int(r.choice([1, 2, 3]))
+        q = r.dirichlet(np.ones(K) * 2)
+        logq, logL, logpi = np.log(q), r.normal(0, 3, K), np.log(r.dirichlet(np.ones(K)))
+        b0 = float(r.choice([0.0, r.uniform(0, 0.8)]))
+        b1 = float(r.choice([1.0, r.uniform(b0, 1.0)]))
+        nsn = ("numpy", "torch", "jax")[t % 3]
+        temp = lambda b: np.exp((1 - b) * logq + b * (logL + logpi))
+        Z0, Z1 = float(temp(b0).sum()), float(temp(b1).sum())
+        pb = temp(b0) / Z0
+        acc, lines, pws = [], [], []
+        for pop in itertools.product(range(K), repeat=N):
+            idx = list(pop)
+            s = SMCSamples(x=np.asarray(idx, float).reshape(-1, 1), log_likelihood=logL[idx], log_prior=logpi[idx], log_q=logq[idx], beta=b0,
+                           xp=ns.get_xp(nsn), dtype=ns.native_dtype(nsn, "f64"))
+            pw = float(np.prod(pb[idx]))
+            acc.append(pw * math.exp(float(s.log_evidence_ratio(b1))))
+            pws.append(pw)
+            lines.append(f"f64 ratio {core.fh(b0)} {core.fh(b1)} {fl(logL[idx])} {fl(logpi[idx])} {fl(logq[idx])}")
+        E = math.fsum(acc)
+        case = {"level": "step_enumeration", "K": K, "N": N, "ns": nsn, "beta": b0, "beta_new": b1, "q": q.tolist(), "logL": logL.tolist(), "logpi": logpi.tolist()}
+        chk.count("step_enumeration")
+        chk.count("enumerated_populations", K ** N)
+        chk.case({k: case[k] for k in ("K", "N", "ns", "beta", "beta_new")} if t < 2 else None, json.dumps(case))
+        if not core.close(E, Z1 / Z0, 1e-11):
+            chk.fail("the expectation of the per-step estimate is the ratio of normalising constants", case,
+                     f"sum over {K ** N} populations = {E!r}, Z_b'/Z_b = {Z1 / Z0!r}", {"level": "step_enumeration", "clause": "step_ratio"})
+        mE = math.fsum(pw * math.exp(rep.f()) for pw, rep in zip(pws, drv.batch(lines)))
+        if not core.close(mE, E, 1e-11):
+            chk.disagree("expected step estimate", case, mE, E)
+
+
 # ----------------------------------------------------------------------------- (b) replicates (exploration)
 def true_values(cfg):
     from scipy.stats import norm
@@ -226,6 +265,7 @@ def run(chk: core.Check):
     chk.trusted += ["(b) is exploration supporting the tie, never a stand-in for the theorems; the MCMC kernels are test doubles (valid Metropolis kernels), the real kernels' mixing is outside every theorem",
                     "analytic truth from scipy.stats.norm"]
     check_enumeration(chk, r, 18 if quick else 150, quick)
+    check_step_enumeration(chk, r, 12 if quick else 100)
     check_replicates(chk, r, quick)
 
     def search():
